@@ -363,7 +363,8 @@ def c05(tier, seed):
 def c18(tier, seed):
     shapes = regex_shapes('C18', tier, seed)
     ns, b = ((0, 1), 2) if tier == 'quick' else ((0, 1, 2), 3)
-    jobs = [RJ('vh_c18_start', 0, n, b, 0, sh, 'start_char/start_class %s |w|=%d' % (S.show(sh), n)) for sh in shapes for n in ns]
+    jobs = [RJ('vh_c18_start', 0, n, b, 0, sh, 'start_char/start_class %s |w|=%d' % (S.show(sh), n)) for sh in shapes for n in ns
+            if not (tier == 'quick' and n == 0 and S._costs().get(S.show(sh), 99) > 25 and S.show(sh) not in S.FORCE_QUICK.get('C18', ()))]
     return regex_spec(jobs, shapes, tier, 'start_char(e,c) for symbolic c against emptiness of the derivative and against the oracle (member c.w => true; true => witness c.v is a member); '
                       'start_class per class with a symbolic member; BadClassId', ns[-1] + 1, b)
 
@@ -383,6 +384,8 @@ def c16(tier, seed):
     for (r, s2) in prs:
         for n in ns:
             toks = S.tokens(r) + S.tokens(s2)
+            if tier == 'quick' and n == 3 and S.pair_cost(r, s2) > 200:
+                continue   # quick: the longer string only for the cheaper pairs
             jobs.append(J('vh_c16_incl', [0, n, b, ext] + toks, 'included_in %s <= %s |w|=%d' % (S.show(r), S.show(s2), n),
                           cost=4 ** (S.nsym(r) + S.nsym(s2)) * 3 ** n))
     return {'jobs': jobs,
